@@ -9,6 +9,7 @@ import GeoModel.Contains
 import GeoModel.Gen.Masks
 import GeoModel.Gen.Enums
 import GeoProofs.Lemmas.SegmentSpec
+import GeoProofs.Lemmas.LocateLemmas
 
 namespace Geo.Proofs.C02
 open Geo
@@ -76,5 +77,329 @@ theorem lineCoord_iff (a b p : Pt) : lineCoord a b p = true ↔ Geo.Proofs.Kerne
 theorem lineLine_iff (a b c d : Pt) :
     lineLine a b c d = true ↔ ∃ p, Geo.Proofs.Kernel.SegMem p a b ∧ Geo.Proofs.Kernel.SegMem p c d :=
   Geo.Proofs.Kernel.lineLine_iff a b c d
+
+/-! ### the two winding computations agree -/
+
+/-- [T] geo's winding loop (`coord_pos_relative_to_ring`), when it does not stop at a boundary hit,
+adds up exactly the increments of the specification's `windingE` (both are Sunday's algorithm: the
+branch conditions `s.y ≤ p.y`, `e.y ≥ p.y ∧ e.y ≠ p.y`, orientation sign coincide edge by edge). -/
+theorem ringWinding_eq (p : Pt) (es : List (Pt × Pt)) (w w' : Int)
+    (h : ringWinding p es w = some w') :
+    w' = w + (es.map (fun se => Loc.specInc (EPt.ofPt p) se.1 se.2)).sum :=
+  Loc.ringWinding_eq p es w w' h
+
+example : (12 : Int) = 11 + ([((⟨0, 0⟩ : Pt), (⟨4, 0⟩ : Pt)), (⟨4, 0⟩, ⟨0, 4⟩), (⟨0, 4⟩, ⟨0, 0⟩)].map
+    (fun se => Loc.specInc (EPt.ofPt ⟨1, 1⟩) se.1 se.2)).sum :=
+  ringWinding_eq ⟨1, 1⟩ _ 11 12 (by decide +kernel)
+
+/-- [T] the specification's winding number is the sum of these increments. -/
+theorem windingE_eq_sum (p : EPt) (ring : List Pt) :
+    windingE p ring = ((segs ring).map (fun se => Loc.specInc p se.1 se.2)).sum :=
+  Loc.windingE_eq_sum p ring
+
+/-- [T] off the ring, `coord_pos_relative_to_ring` answers `Inside` exactly when the
+specification's winding number is non-zero. -/
+theorem ringPos_eq_spec (p : Pt) (ring : List Pt) (h2 : 2 ≤ ring.length)
+    (hb : ringPos p ring ≠ .onBoundary) :
+    ringPos p ring = .inside ↔ windingE (EPt.ofPt p) ring ≠ 0 :=
+  Loc.ringPos_eq_spec p ring h2 hb
+
+example : ringPos ⟨1, 1⟩ [⟨0, 0⟩, ⟨4, 0⟩, ⟨0, 4⟩, ⟨0, 0⟩] = .inside ↔
+    windingE (EPt.ofPt ⟨1, 1⟩) [⟨0, 0⟩, ⟨4, 0⟩, ⟨0, 4⟩, ⟨0, 0⟩] ≠ 0 :=
+  ringPos_eq_spec _ _ (by simp) (by decide +kernel)
+
+/-! ### `coordinate_position` is the specification's point location -/
+
+/-- [T] Point. -/
+theorem coordPos_point_eq_locate (q p : Pt) : coordPos (.point q) p = locate (.point q) p :=
+  Loc.coordPos_point_eq_locate q p
+
+/-- [T] MultiPoint. -/
+theorem coordPos_multiPoint_eq_locate (qs : List Pt) (p : Pt) :
+    coordPos (.multiPoint qs) p = locate (.multiPoint qs) p :=
+  Loc.coordPos_multiPoint_eq_locate qs p
+
+/-- [T] Line: end points are boundary, other points of the segment interior (a zero-length line is
+its point). -/
+theorem coordPos_line_eq_locate (a b p : Pt) : coordPos (.line a b) p = locate (.line a b) p :=
+  Loc.coordPos_line_eq_locate a b p
+
+/-- [T] LineString, open or closed, any number of coordinates; includes soundness of the
+bounding-box early return (a point outside the bounding box lies on no segment). -/
+theorem coordPos_lineString_eq_locate (cs : List Pt) (p : Pt) :
+    coordPos (.lineString cs) p = locate (.lineString cs) p :=
+  Loc.coordPos_lineString_eq_locate cs p
+
+/-- [T] `LineString: Intersects<Coord>` with its bounding-box rejection is "on some segment". -/
+theorem lineStringCoord_eq (cs : List Pt) (p : Pt) : lineStringCoord cs p = onAnySeg p (segs cs) :=
+  Loc.lineStringCoord_eq cs p
+
+/-- [T] Rect with positive width and height: the four comparisons are the location relative to the
+ring of `Rect::to_polygon`. -/
+theorem coordPos_rect_eq_locate (mn mx p : Pt) (hx : mn.x < mx.x) (hy : mn.y < mx.y) :
+    coordPos (.rect mn mx) p = locate (.rect mn mx) p :=
+  Loc.coordPos_rect_eq_locate mn mx p hx hy
+
+example : coordPos (.rect ⟨0, 0⟩ ⟨2, 3⟩) ⟨2, 1⟩ = locate (.rect ⟨0, 0⟩ ⟨2, 3⟩) ⟨2, 1⟩ :=
+  coordPos_rect_eq_locate _ _ _ (by norm_num) (by norm_num)
+
+/-- [T] Triangle (after the fix), for every vertex order, degenerate or not: the strict same-sign
+test of the three edge orientations is "winding number of `[a, b, c, a]` non-zero" off the edges. -/
+theorem coordPos_triangle_eq_locate (a b c p : Pt) :
+    coordPos (.triangle a b c) p = locate (.triangle a b c) p :=
+  Loc.coordPos_triangle_eq_locate a b c p
+
+/-- [T] Polygon with closed rings, at a query point `p` for which (H1) if `p` is on a hole ring it
+is not outside the shell ring, and (H2) if `p` is strictly inside a hole it is on no hole ring.
+Both hold at every point of an OGC-valid polygon (holes lie in the closed shell; hole rings do not
+enter each other's interior). Full statement (no H1/H2): false, the Rust loop returns at the shell
+/ first containing hole without looking at the remaining rings. -/
+theorem coordPos_polygon_eq_locate_partial (poly : Poly) (p : Pt)
+    (hext : poly.ext.head? = poly.ext.getLast? ∧ 2 ≤ poly.ext.length)
+    (hints : ∀ h ∈ poly.ints, h.head? = h.getLast? ∧ 2 ≤ h.length)
+    (H1 : ∀ h ∈ poly.ints, onAnySeg p (segs h) = true → ringPos p poly.ext ≠ .outside)
+    (H2 : ∀ h ∈ poly.ints, ∀ h' ∈ poly.ints, ringPos p h = .inside → onAnySeg p (segs h') = false) :
+    coordPos (.polygon poly) p = locate (.polygon poly) p :=
+  Loc.coordPos_polygon_eq_locate_at poly p hext hints H1 H2
+
+example : coordPos (.polygon ⟨[⟨0, 0⟩, ⟨10, 0⟩, ⟨10, 10⟩, ⟨0, 10⟩, ⟨0, 0⟩],
+      [[⟨2, 2⟩, ⟨4, 2⟩, ⟨4, 4⟩, ⟨2, 4⟩, ⟨2, 2⟩], [⟨6, 6⟩, ⟨8, 6⟩, ⟨8, 8⟩, ⟨6, 8⟩, ⟨6, 6⟩]]⟩) ⟨4, 3⟩ =
+    locate (.polygon ⟨[⟨0, 0⟩, ⟨10, 0⟩, ⟨10, 10⟩, ⟨0, 10⟩, ⟨0, 0⟩],
+      [[⟨2, 2⟩, ⟨4, 2⟩, ⟨4, 4⟩, ⟨2, 4⟩, ⟨2, 2⟩], [⟨6, 6⟩, ⟨8, 6⟩, ⟨8, 8⟩, ⟨6, 8⟩, ⟨6, 6⟩]]⟩) ⟨4, 3⟩ :=
+  coordPos_polygon_eq_locate_partial _ _ (by decide +kernel) (by decide +kernel) (by decide +kernel)
+    (by decide +kernel)
+
+/-- [T] MultiPolygon (after the fix: one boundary hit when any member reports boundary): if the
+members' positions are the specification's and no point is interior to one member and on the
+boundary of another (valid MultiPolygon), the collection's position is the specification's. -/
+theorem coordPos_multiPolygon_eq_locate_partial (ps : List Poly) (p : Pt)
+    (hm : ∀ m ∈ ps, coordPos (.polygon m) p = locate (.polygon m) p)
+    (hd : ∀ m ∈ ps, ∀ m' ∈ ps, locate (.polygon m) p = .inside → locate (.polygon m') p ≠ .onBoundary) :
+    coordPos (.multiPolygon ps) p = locate (.multiPolygon ps) p :=
+  Loc.coordPos_multiPolygon_eq_locate_of ps p hm hd
+
+example : coordPos (.multiPolygon [⟨[⟨0, 0⟩, ⟨4, 0⟩, ⟨4, 4⟩, ⟨0, 4⟩, ⟨0, 0⟩], []⟩,
+      ⟨[⟨4, 4⟩, ⟨8, 4⟩, ⟨8, 8⟩, ⟨4, 8⟩, ⟨4, 4⟩], []⟩]) ⟨4, 4⟩ =
+    locate (.multiPolygon [⟨[⟨0, 0⟩, ⟨4, 0⟩, ⟨4, 4⟩, ⟨0, 4⟩, ⟨0, 0⟩], []⟩,
+      ⟨[⟨4, 4⟩, ⟨8, 4⟩, ⟨8, 8⟩, ⟨4, 8⟩, ⟨4, 4⟩], []⟩]) ⟨4, 4⟩ :=
+  coordPos_multiPolygon_eq_locate_partial _ _ (by decide +kernel) (by decide +kernel)
+
+/-- [T] witness of known finding K9: the end point shared by two open members is interior by the
+mod-2 rule, the MultiLineString clause (members add to one shared counter) answers `Outside`. -/
+theorem coordPos_mls_ne_locate_witness :
+    coordPos (.multiLineString [[⟨0, 0⟩, ⟨1, 0⟩], [⟨1, 0⟩, ⟨2, 0⟩]]) ⟨1, 0⟩ = .outside ∧
+    locate (.multiLineString [[⟨0, 0⟩, ⟨1, 0⟩], [⟨1, 0⟩, ⟨2, 0⟩]]) ⟨1, 0⟩ = .inside := by
+  decide +kernel
+
+/-- [T] MultiLineString away from K9: when `p` is an end point of at most one open member, the
+position is the specification's. Full statement (no hypothesis): false, see
+`coordPos_mls_ne_locate_witness`. -/
+theorem coordPos_mls_eq_locate_partial (ls : List (List Pt)) (p : Pt)
+    (h : endpointCount p ls ≤ 1) :
+    coordPos (.multiLineString ls) p = locate (.multiLineString ls) p :=
+  Loc.coordPos_mls_eq_locate_of_count ls p h
+
+example : coordPos (.multiLineString [[⟨0, 0⟩, ⟨1, 0⟩], [⟨1, 0⟩, ⟨2, 0⟩]]) ⟨2, 0⟩ =
+    locate (.multiLineString [[⟨0, 0⟩, ⟨1, 0⟩], [⟨1, 0⟩, ⟨2, 0⟩]]) ⟨2, 0⟩ :=
+  coordPos_mls_eq_locate_partial _ _ (by decide +kernel)
+
+/-! ### folds, bounding-box rejection, symmetry of the dispatch -/
+
+/-- [T] `has_disjoint_bboxes` is sound for the segment kernel: if the bounding boxes of two
+LineStrings do not intersect, no segment of one meets a segment of the other. -/
+theorem disjointBB_lineString_sound (cs ds : List Pt)
+    (h : disjointBB (.lineString cs) (.lineString ds) = true) :
+    ∀ s ∈ segs cs, ∀ t ∈ segs ds, lineLine s.1 s.2 t.1 t.2 = false :=
+  Loc.disjointBB_lineString_sound cs ds h
+
+example : lineLine ⟨0, 0⟩ ⟨1, 1⟩ ⟨3, 0⟩ ⟨4, 5⟩ = false :=
+  disjointBB_lineString_sound [⟨0, 0⟩, ⟨1, 1⟩] [⟨3, 0⟩, ⟨4, 5⟩] (by decide +kernel)
+    (⟨0, 0⟩, ⟨1, 1⟩) (by simp [segs]) (⟨3, 0⟩, ⟨4, 5⟩) (by simp [segs])
+
+/-- [T] `LineString: Intersects<Line>`: the bounding-box early return loses nothing — the result
+is `any` of the segment kernel. -/
+theorem lsLine_eq (cs : List Pt) (a b : Pt) :
+    lsLine cs a b = (segs cs).any (fun s => lineLine s.1 s.2 a b) :=
+  Loc.lsLine_eq cs a b
+
+/-- [T] `MultiPoint: Intersects<G>` is `any` over its points. -/
+theorem intersectsM_multiPoint (cs : List Pt) (b : Geom) :
+    intersectsM (.multiPoint cs) b = cs.any (fun c => intersectsM (.point c) b) :=
+  Loc.intersectsM_multiPoint cs b
+
+/-- [T] `LineString: Intersects<G>`: bounding-box test, then `any` over its segments. -/
+theorem intersectsM_lineString (cs : List Pt) (b : Geom) :
+    intersectsM (.lineString cs) b =
+      (!disjointBB (.lineString cs) b && (segs cs).any (fun s => intersectsM (.line s.1 s.2) b)) :=
+  Loc.intersectsM_lineString cs b
+
+/-- [T] `MultiPolygon: Intersects<G>`: bounding-box test, then `any` over its polygons. -/
+theorem intersectsM_multiPolygon (ps : List Poly) (b : Geom) :
+    intersectsM (.multiPolygon ps) b =
+      (!disjointBB (.multiPolygon ps) b && ps.any (fun p => intersectsM (.polygon p) b)) :=
+  Loc.intersectsM_multiPolygon ps b
+
+/-- [T] `GeometryCollection: Intersects<G>`: bounding-box test, then `any` over its members. -/
+theorem intersectsM_collection (gs : List Geom) (b : Geom) :
+    intersectsM (.collection gs) b =
+      (!disjointBB (.collection gs) b && gs.any (fun g => intersectsM g b)) :=
+  Loc.intersectsM_collection gs b
+
+/-- [T] `intersects` is symmetric on every pair of primitives (Point, Line, Rect, Triangle,
+Polygon) except Triangle × Triangle and Polygon × Polygon (`Loc.kernelPair`): both dispatch orders
+reach the same kernel term, up to the proved symmetry of Coord × Coord, Line × Line and Rect × Rect.
+Full statement (all pairs): the two excluded pairs run the asymmetric `Polygon × Polygon` body
+([C] only). -/
+theorem intersectsM_symm_partial (a b : Geom) (h : Loc.kernelPair a b = true) :
+    intersectsM a b = intersectsM b a :=
+  Loc.intersectsM_symm_kernel a b h
+
+example : intersectsM (.line ⟨0, 0⟩ ⟨2, 2⟩) (.rect ⟨1, 1⟩ ⟨3, 3⟩) =
+    intersectsM (.rect ⟨1, 1⟩ ⟨3, 3⟩) (.line ⟨0, 0⟩ ⟨2, 2⟩) :=
+  intersectsM_symm_partial _ _ rfl
+
+/-- [T] `MultiPoint × primitive` is symmetric. -/
+theorem intersectsM_symm_multiPoint (cs : List Pt) (b : Geom) (h : Loc.prim b = true) :
+    intersectsM (.multiPoint cs) b = intersectsM b (.multiPoint cs) :=
+  Loc.intersectsM_symm_multiPoint cs b h
+
+example : intersectsM (.multiPoint [⟨0, 0⟩, ⟨1, 1⟩]) (.triangle ⟨0, 0⟩ ⟨4, 0⟩ ⟨0, 4⟩) =
+    intersectsM (.triangle ⟨0, 0⟩ ⟨4, 0⟩ ⟨0, 4⟩) (.multiPoint [⟨0, 0⟩, ⟨1, 1⟩]) :=
+  intersectsM_symm_multiPoint _ _ rfl
+
+/-! ### masks on the DE-9IM specification against a Point, and the hand-written bodies -/
+
+/-- [T] For every geometry `A` (collections included): the mask `T*****FF*` on the DE-9IM
+specification of `(A, Point c)` holds exactly when `c` is located in the interior of `A` — the only
+atoms of the arrangement in the Interior/Boundary columns of a point are located at the point. -/
+theorem isContains_relate_point (a : Geom) (c : Pt) :
+    Gen.isContains (relateSpec a (.point c)) = (locate a c == .inside) :=
+  Loc.isContains_relate_point a c
+
+/-- [T] … and "not `FF*FF****`" holds exactly when `c` is not in the exterior of `A`. -/
+theorem isIntersects_relate_point (a : Geom) (c : Pt) :
+    Gen.isIntersects (relateSpec a (.point c)) = (locate a c != .outside) :=
+  Loc.isIntersects_relate_point a c
+
+/-- [T] hand-written `Contains`, Point × Point = the mask on the specification. -/
+theorem containsM_point_point (p q : Pt) :
+    containsM (.point p) (.point q) = Gen.isContains (relateSpec (.point p) (.point q)) :=
+  Loc.containsM_point_point p q
+
+/-- [T] MultiPoint × Point. -/
+theorem containsM_multiPoint_point (ps : List Pt) (q : Pt) :
+    containsM (.multiPoint ps) (.point q) = Gen.isContains (relateSpec (.multiPoint ps) (.point q)) :=
+  Loc.containsM_multiPoint_point ps q
+
+/-- [T] Line × Point (`lineContainsCoord`; degenerate lines included). -/
+theorem containsM_line_point (a b c : Pt) :
+    containsM (.line a b) (.point c) = Gen.isContains (relateSpec (.line a b) (.point c)) :=
+  Loc.containsM_line_point a b c
+
+/-- [T] Rect × Point (strict comparisons), Rect of positive width and height. Full statement
+(degenerate Rect): candidate finding K7 of DESIGN.md, outside the stream. -/
+theorem containsM_rect_point_partial (mn mx c : Pt) (hx : mn.x < mx.x) (hy : mn.y < mx.y) :
+    containsM (.rect mn mx) (.point c) = Gen.isContains (relateSpec (.rect mn mx) (.point c)) :=
+  Loc.containsM_rect_point mn mx c hx hy
+
+example : containsM (.rect ⟨0, 0⟩ ⟨2, 3⟩) (.point ⟨1, 1⟩) =
+    Gen.isContains (relateSpec (.rect ⟨0, 0⟩ ⟨2, 3⟩) (.point ⟨1, 1⟩)) :=
+  containsM_rect_point_partial _ _ _ (by norm_num) (by norm_num)
+
+/-- [T] Triangle × Point (every vertex order, degenerate or not). -/
+theorem containsM_triangle_point (a b c p : Pt) :
+    containsM (.triangle a b c) (.point p) = Gen.isContains (relateSpec (.triangle a b c) (.point p)) :=
+  Loc.containsM_triangle_point a b c p
+
+/-- [T] Polygon × Point under the hypotheses of `coordPos_polygon_eq_locate_partial`. -/
+theorem containsM_polygon_point_partial (poly : Poly) (p : Pt)
+    (hext : poly.ext.head? = poly.ext.getLast? ∧ 2 ≤ poly.ext.length)
+    (hints : ∀ h ∈ poly.ints, h.head? = h.getLast? ∧ 2 ≤ h.length)
+    (H1 : ∀ h ∈ poly.ints, onAnySeg p (segs h) = true → ringPos p poly.ext ≠ .outside)
+    (H2 : ∀ h ∈ poly.ints, ∀ h' ∈ poly.ints, ringPos p h = .inside → onAnySeg p (segs h') = false) :
+    containsM (.polygon poly) (.point p) = Gen.isContains (relateSpec (.polygon poly) (.point p)) :=
+  Loc.containsM_polygon_point poly p (coordPos_polygon_eq_locate_partial poly p hext hints H1 H2)
+
+example : containsM (.polygon ⟨[⟨0, 0⟩, ⟨10, 0⟩, ⟨10, 10⟩, ⟨0, 10⟩, ⟨0, 0⟩],
+      [[⟨2, 2⟩, ⟨4, 2⟩, ⟨4, 4⟩, ⟨2, 4⟩, ⟨2, 2⟩]]⟩) (.point ⟨3, 3⟩) =
+    Gen.isContains (relateSpec (.polygon ⟨[⟨0, 0⟩, ⟨10, 0⟩, ⟨10, 10⟩, ⟨0, 10⟩, ⟨0, 0⟩],
+      [[⟨2, 2⟩, ⟨4, 2⟩, ⟨4, 4⟩, ⟨2, 4⟩, ⟨2, 2⟩]]⟩) (.point ⟨3, 3⟩)) :=
+  containsM_polygon_point_partial _ _ (by decide +kernel) (by decide +kernel) (by decide +kernel)
+    (by decide +kernel)
+
+/-- [T] `Intersects`, Point × Point = the mask on the specification. -/
+theorem intersectsM_point_point (q c : Pt) :
+    intersectsM (.point q) (.point c) = Gen.isIntersects (relateSpec (.point q) (.point c)) :=
+  Loc.intersectsM_point_point q c
+
+/-- [T] MultiPoint × Point. -/
+theorem intersectsM_multiPoint_point (qs : List Pt) (c : Pt) :
+    intersectsM (.multiPoint qs) (.point c) = Gen.isIntersects (relateSpec (.multiPoint qs) (.point c)) :=
+  Loc.intersectsM_multiPoint_point qs c
+
+/-- [T] Line × Point. -/
+theorem intersectsM_line_point (a b c : Pt) :
+    intersectsM (.line a b) (.point c) = Gen.isIntersects (relateSpec (.line a b) (.point c)) :=
+  Loc.intersectsM_line_point a b c
+
+/-- [T] LineString × Point (bounding-box rejection included). -/
+theorem intersectsM_lineString_point (cs : List Pt) (c : Pt) :
+    intersectsM (.lineString cs) (.point c) = Gen.isIntersects (relateSpec (.lineString cs) (.point c)) :=
+  Loc.intersectsM_lineString_point cs c
+
+/-- [T] Rect × Point, Rect of positive width and height. -/
+theorem intersectsM_rect_point_partial (mn mx c : Pt) (hx : mn.x < mx.x) (hy : mn.y < mx.y) :
+    intersectsM (.rect mn mx) (.point c) = Gen.isIntersects (relateSpec (.rect mn mx) (.point c)) :=
+  Loc.intersectsM_rect_point mn mx c hx hy
+
+example : intersectsM (.rect ⟨0, 0⟩ ⟨2, 3⟩) (.point ⟨2, 1⟩) =
+    Gen.isIntersects (relateSpec (.rect ⟨0, 0⟩ ⟨2, 3⟩) (.point ⟨2, 1⟩)) :=
+  intersectsM_rect_point_partial _ _ _ (by norm_num) (by norm_num)
+
+/-- [T] Polygon × Point wherever the Polygon position is the specification's (e.g. under the
+hypotheses of `coordPos_polygon_eq_locate_partial`). -/
+theorem intersectsM_polygon_point_partial (poly : Poly) (p : Pt)
+    (h : coordPos (.polygon poly) p = locate (.polygon poly) p) :
+    intersectsM (.polygon poly) (.point p) = Gen.isIntersects (relateSpec (.polygon poly) (.point p)) :=
+  Loc.intersectsM_polygon_point poly p h
+
+example : intersectsM (.polygon ⟨[⟨0, 0⟩, ⟨4, 0⟩, ⟨0, 4⟩, ⟨0, 0⟩], []⟩) (.point ⟨2, 2⟩) =
+    Gen.isIntersects (relateSpec (.polygon ⟨[⟨0, 0⟩, ⟨4, 0⟩, ⟨0, 4⟩, ⟨0, 0⟩], []⟩) (.point ⟨2, 2⟩)) :=
+  intersectsM_polygon_point_partial _ _ (by decide +kernel)
+
+/-- [T] Triangle × Point (sorted-orientation window test), non-degenerate triangle. Full statement
+(collinear vertices): false — the window test accepts every point of the supporting line. -/
+theorem intersectsM_triangle_point_partial (a b c p : Pt) (hD : cross a b c ≠ 0) :
+    intersectsM (.triangle a b c) (.point p) =
+      Gen.isIntersects (relateSpec (.triangle a b c) (.point p)) :=
+  Loc.intersectsM_triangle_point a b c p hD
+
+example : intersectsM (.triangle ⟨0, 0⟩ ⟨4, 0⟩ ⟨0, 4⟩) (.point ⟨2, 2⟩) =
+    Gen.isIntersects (relateSpec (.triangle ⟨0, 0⟩ ⟨4, 0⟩ ⟨0, 4⟩) (.point ⟨2, 2⟩)) :=
+  intersectsM_triangle_point_partial _ _ _ _ (by norm_num [cross])
+
+/-- [T] witness for the excluded class: on a degenerate triangle the window test accepts a point
+of the supporting line that is on no edge. -/
+theorem triCoord_degenerate_witness :
+    triCoord ⟨0, 0⟩ ⟨1, 0⟩ ⟨2, 0⟩ ⟨5, 0⟩ = true ∧
+    locate (.triangle ⟨0, 0⟩ ⟨1, 0⟩ ⟨2, 0⟩) ⟨5, 0⟩ = .outside := by
+  decide +kernel
+
+/-- [T] For every geometry `A`: the mask `T*F**F***` on the specification of `(Point c, A)` holds
+exactly when `c` is located in the interior of `A`. -/
+theorem isWithin_relate_point (a : Geom) (c : Pt) :
+    Gen.isWithin (relateSpec (.point c) a) = (locate a c == .inside) :=
+  Loc.isWithin_relate_point a c
+
+/-- [T] `Point.is_within(A)` returns what its own mask gives on the specification whenever
+`A.contains(Point)` does (so for every `A` of the `containsM_*_point` theorems above). -/
+theorem withinM_point_of_contains (a : Geom) (c : Pt)
+    (h : containsM a (.point c) = Gen.isContains (relateSpec a (.point c))) :
+    withinM (.point c) a = Gen.isWithin (relateSpec (.point c) a) :=
+  Loc.withinM_point_of_contains a c h
+
+example : withinM (.point ⟨1, 1⟩) (.triangle ⟨0, 0⟩ ⟨4, 0⟩ ⟨0, 4⟩) =
+    Gen.isWithin (relateSpec (.point ⟨1, 1⟩) (.triangle ⟨0, 0⟩ ⟨4, 0⟩ ⟨0, 4⟩)) :=
+  withinM_point_of_contains _ _ (containsM_triangle_point _ _ _ _)
 
 end Geo.Proofs.C02
